@@ -361,7 +361,8 @@ def gen_around(rng, info, doc, f, t):
         w = rng.choice(types)
         wn = Node(w, gen_attrs(rng, w), Fragment.empty, [])
         return ReplaceAroundStep(f, t, t, t, Slice(Fragment.from_(wn), 0, 0), 1, rng.random() < 0.5)
-    # arbitrary gap inside [f, t]
-    gf = rng.randint(f, t)
-    gt = rng.randint(gf, t)
+    # arbitrary (pair-aligned) gap inside [f, t]
+    inner = [p for p in aligned_positions(doc) if f <= p <= t] or [f]
+    gf = rng.choice(inner)
+    gt = rng.choice([p for p in inner if p >= gf])
     return ReplaceAroundStep(f, t, gf, gt, Slice.empty, 0, rng.random() < 0.5)
